@@ -94,6 +94,19 @@ def samplegen_literals():
             [consts[k] for k in ("TRANSPORT_GRPC", "TRANSPORT_GRPC_ASYNC", "TRANSPORT_REST")])
 
 
+def index_literals():
+    """How SnippetIndex files and fetches a snippet: the statements of add_snippet that store it, the return of get_snippet."""
+    t = _parse("gapic/samplegen_utils/snippet_index.py")
+    add = _fn(t, "add_snippet", "SnippetIndex")
+    get = _fn(t, "get_snippet", "SnippetIndex")
+    store = [re.sub(r"\s+", " ", ast.unparse(st)) for st in add.body
+             if any(isinstance(n, ast.Subscript) and isinstance(n.ctx, ast.Store) and ast.unparse(n.value) == "method" for n in ast.walk(st))]
+    ret = [ast.unparse(st) for st in get.body if isinstance(st, ast.Return)]
+    if not store or len(ret) != 1:
+        raise ValueError("SnippetIndex.add_snippet / get_snippet changed shape")
+    return store, ret[0]
+
+
 def calling_forms():
     t = _parse("gapic/samplegen_utils/types.py")
     c = [n for n in t.body if isinstance(n, ast.ClassDef) and n.name == "CallingForm"]
@@ -113,6 +126,7 @@ def gen_text():
     rq, tests, rec = request_object_literals()
     tag, aug, so, sg, tr = samplegen_literals()
     members, md = calling_forms()
+    store, ret = index_literals()
     q = coq.s
     return "\n".join([
         "(* Gen/SamplesGen.v — REGENERATED on every run (T0) from gapic/samplegen/samplegen.py, samplegen_utils/snippet_index.py,",
@@ -125,6 +139,8 @@ def gen_text():
         f"Definition GRO_REQUIRED_SRC : string := {q(rq)}.",
         f"Definition GRO_BRANCH_TESTS : list string := {coq.slist(tests)}.",
         f"Definition GRO_RECURSIVE_KWARGS : list string := {coq.slist(rec)}.",
+        f"Definition INDEX_STORE_SRC : list string := {coq.slist(store)}.",
+        f"Definition INDEX_GET_SRC : string := {q(ret)}.",
         f"Definition REGION_TAG_SRC : string := {q(tag)}.",
         f"Definition REGION_TAG_INTERNAL_SRC : string := {q(aug)}.",
         f"Definition SYNC_OR_ASYNC_SRC : list string := {coq.slist(_flat(so))}.",
